@@ -922,7 +922,16 @@ def _atom(e, local_names=frozenset()) -> bool:
     y = e
     while isinstance(y, ast.Attribute):
         y = y.value
+    if y is not e and _literal_text(y):
+        return True  # a method of a string literal (`TEMPLATE_LINE.format` bound before a loop): literals do not change
     return isinstance(y, ast.Name) and (y is e or y.id not in local_names)
+
+
+def _literal_text(e) -> bool:
+    """A string constant or a concatenation of string constants."""
+    if isinstance(e, ast.Constant):
+        return isinstance(e.value, (str, bytes))
+    return isinstance(e, ast.BinOp) and isinstance(e.op, ast.Add) and _literal_text(e.left) and _literal_text(e.right)
 
 
 def substitute_module_aliases(prog) -> int:
